@@ -212,3 +212,36 @@ func TestReplay_ProviderSeesLaterCollectionChanges(t *testing.T) {
 
 var _ = context.Background
 var _ = fmt.Sprint
+
+type rbCtxImpl struct{ context.Context }
+
+// collection.registerDescriptor#post[reserved_types_rejected]: reserved built-in types registered through As / extra return values.
+func TestReplay_ReservedTypesThroughOtherPaths(t *testing.T) {
+	c := NewCollection()
+	if err := c.AddScoped(func() *rbCtxImpl { return &rbCtxImpl{context.Background()} }, As[context.Context]()); err == nil {
+		t.Errorf("REPLAY-CONFIRMED registerDescriptor#post[reserved_types_rejected]: context.Context was registered through As[context.Context]()")
+	}
+	c2 := NewCollection()
+	if err := c2.AddScoped(func() (*rbLogger, context.Context) { return &rbLogger{}, context.Background() }); err == nil {
+		t.Errorf("REPLAY-CONFIRMED registerDescriptor#post[reserved_types_rejected]: context.Context was registered as a second return value")
+	}
+}
+
+type rbMultiA struct{}
+type rbMultiB struct{}
+
+// collection.addService#post[rejected_registration_leaves_the_collection_unchanged]: a multi-output registration that collides on a later output.
+func TestReplay_RejectedMultiOutputRegistrationIsAtomic(t *testing.T) {
+	c := NewCollection()
+	if err := c.AddSingleton(func() *rbMultiB { return &rbMultiB{} }); err != nil {
+		t.Fatal(err)
+	}
+	before := c.Count()
+	err := c.AddSingleton(func() (*rbMultiA, *rbMultiB) { return &rbMultiA{}, &rbMultiB{} })
+	if err == nil {
+		t.Skip("registration accepted")
+	}
+	if c.Count() != before || c.Contains(reflect.TypeOf((*rbMultiA)(nil))) {
+		t.Errorf("REPLAY-CONFIRMED addService#post[rejected_registration_leaves_the_collection_unchanged]: rejected registration left %d descriptor(s) behind (Contains(*rbMultiA)=%v)", c.Count()-before, c.Contains(reflect.TypeOf((*rbMultiA)(nil))))
+	}
+}
